@@ -259,7 +259,7 @@ rc::Gen<Case> gen() {
   auto mk = rc::gen::map(rc::gen::tuple(nGen, range(0, 7), range(0, 1 << 20), range(0, 63)), [](std::tuple<int64_t, int64_t, int64_t, int64_t> t) { return Op{"mk", {std::get<0>(t), std::get<1>(t), std::get<2>(t), std::get<3>(t)}}; });
   auto ops = oplist(choose({{6, u}, {1, m}, {1, mk}}), 1, 0.03);
   return make_case({{"fam", range(0, fam::NFAM - 1)}, {"a", range(0, 1 << 16)}, {"b", range(0, 1 << 16)}, {"c", range(0, 1 << 16)},
-                    {"seed", rc::gen::weightedOneOf<int64_t>({{3, rc::gen::just<int64_t>(0)}, {1, range(1, 1000)}})}, {"rnd", range(1, 1 << 20)}, {"variant", range(0, 1)}, {"t", range(0, 1)}, {"ls", range(0, 1)}},
+                    {"seed", rc::gen::weightedOneOf<int64_t>({{3, rc::gen::just<int64_t>(0)}, {1, range(1, 1000)}})}, {"rnd", range(1, 1 << 20)}, {"variant", range(0, 1)}, {"t", range(0, 1)}, {"ls", range(0, 1)}, {"bs", range(0, 1)}, {"hp", rc::gen::weightedOneOf<int64_t>({{2, rc::gen::just<int64_t>(0)}, {1, range(1, 7)}})}},
                    ops);
 }
 
